@@ -294,6 +294,22 @@ func patternOf(kind string, lit string) string {
 
 func (x *Exec) gammaCrit(c []interface{}) query.Criteria {
 	switch c[0].(string) {
+	case "sugar": // the derived builders of query.Field
+		f := query.Field(str(c[2]))
+		switch c[1].(string) {
+		case "neq":
+			return f.Neq(x.gammaOperand(toList(c[3])))
+		case "notexists":
+			return f.NotExists()
+		case "isnil":
+			return f.IsNil()
+		case "istrue":
+			return f.IsTrue()
+		case "isfalse":
+			return f.IsFalse()
+		case "isnilornotexists":
+			return f.IsNilOrNotExists()
+		}
 	case "un":
 		op := c[1].(string)
 		f := query.Field(str(c[2]))
